@@ -9,8 +9,9 @@
   `scan` / `plan` / `sign` follow the current tree, i.e. with the two guards of
     F-MACHO-4 (/repo bd2b0c4)  `scanFile` refuses an image whose load commands do not fill `sizeofcmds` when it has no
                                LC_CODE_SIGNATURE command yet (`len(dat) != 0 && f.loadCsStart == 0`);
-    F-MACHO-3 (/repo 5805b39)  `Sign` refuses when a fresh signature region would exceed what `readSigBlob` reads
-                               (`markers.sigLen < estimatedSize && align(estimatedSize, 8) > 10e6`);
+    F-MACHO-3 (/repo 5805b39, completed by F-MACHO-3b, /repo e678460)  `Sign` refuses when the signature region it is going
+                               to use — the old one when that is at least as large as the estimate, the 8-aligned estimate
+                               otherwise — exceeds what `readSigBlob` reads (`regionSize > 10e6`);
   `scanOrig` / `planOrig` / `signOrig` are the tree before them (kept for the theorems about the defects).
   Integers: file offsets are modelled as `Int`/`Nat`; where Go's int64 would wrap the model says `err range`.
 -/
@@ -249,11 +250,13 @@ def plan (f : Bytes) (hashSize entLen reqLen : Nat) : Res Plan :=
   | .diverge => .diverge
   | .ok m =>
     let est : Int := Int.tdiv (m.codeSize * (20 + hashSize : Nat)) 4096 + (entLen + reqLen : Nat) + 16384
-    -- `if markers.sigLen < estimatedSize && align(estimatedSize, alignSegmentFile) > 10e6` (fix F-MACHO-3; `est` is
-    -- positive where `align` is evaluated: `sigLen ≥ 0`).  Where the int64 product of the estimate would wrap, the
-    -- model says `err range` (only with a __LINKEDIT end beyond 2^57: `patchSignature` says the same above 2^40).
+    -- `regionSize := markers.sigLen; if regionSize < estimatedSize { regionSize = align(estimatedSize, alignSegmentFile) };
+    --  if regionSize > 10e6` (fixes F-MACHO-3 and F-MACHO-3b): the size of the region `PatchSignature` is going to use, the
+    -- old one when it is reused.  `est` is positive where `align` is evaluated (`sigLen ≥ 0`).  Where the int64 product of
+    -- the estimate would wrap, the model says `err range` (only with a __LINKEDIT end beyond 2^57: `patchSignature` says
+    -- the same above 2^40).
     if m.codeSize * (20 + hashSize : Nat) ≥ 2 ^ 63 ∨ m.codeSize * (20 + hashSize : Nat) < -(2 ^ 63) then .err "range" else
-    if (m.sigLen : Int) < est ∧ align est.toNat 8 > 10000000 then .err "signtoolarge" else
+    if (if (m.sigLen : Int) < est then align est.toNat 8 else m.sigLen) > 10000000 then .err "signtoolarge" else
     match patchSignature m (f.take m.consumed) est with
     | .err e => .err e
     | .panic p => .panic p
